@@ -25,6 +25,7 @@ func init() {
 			{Name: "syncring-honest-wrap", Run: extraHonestWrap, Tiers: []string{"thorough"}},
 			{Name: "syncring-cap-rounding", Run: extraCapRounding},
 			{Name: "syncring-timed-wait", Run: extraTimedWait},
+			{Name: "ring-type-matrix", Run: extraTypeMatrix},
 		},
 		NonTrivial: func(c core.Case, out []string) bool {
 			if isCap(c) {
@@ -35,6 +36,9 @@ func init() {
 			}
 			if copyKind(c) != "" {
 				return len(c.Lines) > 6
+			}
+			if isMulti(c) || zKind(c) != "" {
+				return len(c.Lines) > 5
 			}
 			if isSync(c) {
 				return syncNonTrivial(c, out)
@@ -50,7 +54,7 @@ func init() {
 			return n > 0 && len(c.Lines) > 4
 		},
 		Rule: "ring: op sequences (push/pop/peek/len/cap/isempty/isfull/recap/pushx) on Ring[int] of requested capacity -1..6 (1% on the never-initialised zero value, tie only), values distinct counters; non-trivial = at least one successful Recap or a PushWithExpand in a sequence of ≥ 4 ops. " +
-			"sync: op sequences (push/pop/len/cap/isempty/isfull/dump, PushWait/PopWait with maxWait 0, 1..3 ms and -1) on SyncRing[int] of requested capacity 1..9 (plus <= 0 and > 2^31), usually after warping the fresh ring's counters to k around 2^32-{0..3cap}, 2^32+j, 2^33±j (reflect+unsafe, proved equal to k honest push/pop pairs); non-trivial = at least two successful pushes. ringL (large stream): Ring[int] of capacity 16..5000 (thresholds 16/17 … 1024/1025, 4096/4097; to 70000 in thorough) driven by bulk ops fill/drain/xfill with the head rotated into every quarter, PushWithExpand repeatedly, Recap up and down. ringC/syncC (copy stream): 2..3 Ring / SyncRing values, struct assignment `copy i j`, then Init (smaller/equal/larger) / Recap / nothing on one copy and operations alternating on both, judged per object against separate FIFO models while the object shares no written backing array. synccap: 3..9 independent NewSync[struct{}](n).Cap() calls, n among 2^k, 2^k±1, 2^k±2, 3·2^(k-1) (k <= 22), log-uniform random, <= 0, > 2^31. Distinct by hash of the op list",
+			"sync: op sequences (push/pop/len/cap/isempty/isfull/dump, PushWait/PopWait with maxWait 0, 1..3 ms and -1) on SyncRing[int] of requested capacity 1..9 (plus <= 0 and > 2^31), usually after warping the fresh ring's counters to k around 2^32-{0..3cap}, 2^32+j, 2^33±j (reflect+unsafe, proved equal to k honest push/pop pairs); non-trivial = at least two successful pushes. ringL (large stream): Ring[int] of capacity 16..5000 (thresholds 16/17 … 1024/1025, 4096/4097; to 70000 in thorough) driven by bulk ops fill/drain/xfill with the head rotated into every quarter, PushWithExpand repeatedly, Recap up and down. ringC/syncC (copy stream): 2..3 Ring / SyncRing values, struct assignment `copy i j`, then Init (smaller/equal/larger) / Recap / nothing on one copy and operations alternating on both, judged per object against separate FIFO models while the object shares no written backing array. ringM (several objects): 2..4 independent Ring[int] of the same size classes (512..4096) used alternately, each growing/recapping/re-initialising, each judged on its own lines. ringZ/ringA (type parameters): Ring[struct{}] / Ring[[0]int] at capacities MaxInt, MaxInt-1, 2^62±1, 2^32 … with push/pop/len/isfull/recap. synccap: 3..9 independent NewSync[struct{}](n).Cap() calls, n among 2^k, 2^k±1, 2^k±2, 3·2^(k-1) (k <= 22), log-uniform random, <= 0, > 2^31. Distinct by hash of the op list",
 		Classify: classifyBoth,
 		Parallel: true,
 		Assumptions: []string{
